@@ -64,3 +64,45 @@ pub fn bits(x: f64) -> i128 {
 pub fn guarded<T>(f: impl FnOnce() -> T) -> Option<T> {
     std::panic::catch_unwind(std::panic::AssertUnwindSafe(f)).ok()
 }
+
+/// numeric code of the block type named in an `Err` produced by `EntryBuilder::build`
+/// (its message is the Debug rendering of the TokenResult)
+pub fn block_code_of_msg(msg: &str) -> i128 {
+    let key = "block_type: ";
+    match msg.find(key) {
+        None => -2,
+        Some(p) => {
+            let rest = &msg[p + key.len()..];
+            let end = rest.find(|c: char| c == ',' || c == ' ').unwrap_or(rest.len());
+            block_code_of_name(&rest[..end])
+        }
+    }
+}
+
+pub fn block_code_of_name(name: &str) -> i128 {
+    match name {
+        "Unknown" => 0,
+        "Flow" => 1,
+        "Isolation" => 2,
+        "CircuitBreaking" => 3,
+        "SystemFlow" => 4,
+        "HotSpotParamFlow" => 5,
+        s if s.starts_with("Other(") => {
+            100 + s[6..].trim_end_matches(')').parse::<i128>().unwrap_or(-3)
+        }
+        _ => -4,
+    }
+}
+
+pub fn block_code(t: sentinel_core::base::BlockType) -> i128 {
+    use sentinel_core::base::BlockType::*;
+    match t {
+        Unknown => 0,
+        Flow => 1,
+        Isolation => 2,
+        CircuitBreaking => 3,
+        SystemFlow => 4,
+        HotSpotParamFlow => 5,
+        Other(n) => 100 + n as i128,
+    }
+}
